@@ -105,6 +105,9 @@ func aN(x ref.A) []*ref.N { return []*ref.N{x[0][0], x[0][1], x[1][0], x[1][1]} 
 // runFieldCase executes one case and adds its obligations. replayFn, if given, is used to confirm
 // a functional disagreement on the real code.
 func runFieldCase(r *Run, family string, c fieldCase, extraHooks map[string]hookFn) *eqCheck {
+	if only := os.Getenv("VERIF_ONLY"); only != "" && !strings.Contains(c.name, only) {
+		return nil
+	}
 	hooks := fieldHooks()
 	for k, v := range extraHooks {
 		hooks[k] = v
